@@ -70,7 +70,7 @@ def g_c08(rng, tier):
     big = 14 if tier == "quick" else 30
     if rng.random() < 0.35:
         return gen.gen_cf_case(rng, max_ops=big, warm=True, max_rows=12)
-    c = gen.gen_ctx_case(rng, max_ops=big, warm=True, max_rows=12, swap_prob=0.16, fit_prob=0.06)
+    c = gen.gen_ctx_case(rng, max_ops=big, warm=True, max_rows=12, swap_prob=0.16, fit_prob=0.06, nnprob_arm_changes=True)
     if rng.random() < 0.3 and len(c["ops"]) > 2:
         # a training call that is rejected from inside training (another context width; for Clusters also fewer rows than clusters)
         # somewhere in the history: the arm changes and queries after it must behave as if it had never been made
